@@ -4,7 +4,7 @@ from ref import pools
 
 ID = "C04"
 LEVEL = "exploration"
-CONFIGS = {"quick": ["san", "san_nv"], "thorough": ["san", "san_nv", "mx_i64", "mx_w2"]}
+CONFIGS = {"quick": ["san", "san_nv", "mx_i64"], "thorough": ["san", "san_nv", "mx_i64", "mx_w2"]}
 EXTRA_BUILDS = ["sg13", "sg199"]
 RULE = ("single key operations on pool keys x pool tweaks (0, n-d, >= n, lambda-split boundaries), histories of mixed negate/add/mul/x-only/keypair "
         "tweaks carried in lock-step on the secret and the public side against an integer/point model, combine on 1..200 keys with duplicates "
@@ -262,7 +262,7 @@ def wl_sort(ctx, config):
 def run(ctx):
     from vlib import smallgroup
     smallgroup.run(ctx, 'misc', {'tweak_reenc': 'accepted'})
-    for config in ctx.configs:
+    for config in ctx.cfgs():
         wl_single(ctx, config)
         wl_history(ctx, config)
         wl_combine(ctx, config)
